@@ -2,6 +2,7 @@ mod c06;
 mod c07;
 mod c13;
 mod c14;
+mod c17;
 mod c20;
 mod pki;
 mod sess;
@@ -43,6 +44,7 @@ fn main() {
         "C06" => c06::run(&mut ctx),
         "C13" => c13::run(&mut ctx),
         "C14" => c14::run(&mut ctx),
+        "C17" => c17::run(&mut ctx),
         other => { eprintln!("unknown property {other}"); std::process::exit(2); }
     }
     let rep = ctx.report(&property, start.elapsed().as_secs_f64());
